@@ -402,6 +402,114 @@ def render_vmodule(case, cx):
     return body
 
 
+# ------------------------------------------------------------------ TypeScript (resolveType) cases
+
+def ts_key(m):
+    if m["keykind"] == "str":
+        return "'" + m["key"] + "'"
+    return m["key"]
+
+
+def ts_member(m):
+    k = m["k"]
+    if k == "prop":
+        return f'{ts_key(m)}{"?" if m["optional"] else ""}: {ts_type(m["type"])}'
+    if k == "method":
+        return f'{ts_key(m)}{"?" if m["optional"] else ""}(): void'
+    if k == "getter":
+        return f'get {ts_key(m)}(): {ts_type(m["type"])}'
+    if k == "call":
+        return f'(e: {ts_type(m["type"]["param"])}, ...args: any[]): void'
+    raise ValueError("member " + k)
+
+
+def ts_type(t, nested=False):
+    k = t["k"]
+    if k == "kw":
+        return t["name"]
+    if k == "lit":
+        kind = t["kind"]
+        if kind == "str":
+            return "'" + t["text"] + "'"
+        if kind == "tpl":
+            return "`" + t["text"] + "`"
+        if kind == "bigint":
+            return t["text"] + "n"
+        return t["text"]
+    if k == "fn":
+        r = f'(e: {ts_type(t["param"])}, ...args: any[]) => void' if "param" in t else "() => void"
+        return f"({r})" if nested else r
+    if k == "ctor":
+        return "(new () => object)" if nested else "new () => object"
+    if k == "arr":
+        return ts_type(t["of"], True) + "[]"
+    if k == "tuple":
+        return "[" + ", ".join(ts_type(x) for x in t["items"]) + "]"
+    if k == "typelit":
+        return "{ " + "; ".join(ts_member(m) for m in t["members"]) + " }" if t["members"] else "{}"
+    if k == "ref":
+        return t["name"] + ("<" + ", ".join(ts_type(a) for a in t["args"]) + ">" if t["args"] else "")
+    if k == "union":
+        r = " | ".join(ts_type(x, True) for x in t["types"])
+        return f"({r})" if nested else r
+    if k == "inter":
+        r = " & ".join(ts_type(x, True) for x in t["types"])
+        return f"({r})" if nested else r
+    if k == "paren":
+        return "(" + ts_type(t["t"]) + ")"
+    if k == "idx":
+        return ts_type(t["obj"], True) + "[" + ts_type(t["index"]) + "]"
+    raise ValueError("type " + k)
+
+
+def ts_decl(d, exported=False):
+    pre = "export " if exported else ""
+    if d["k"] == "alias":
+        return f'{pre}type {d["name"]} = {ts_type(d["type"])}'
+    ext = (" extends " + ", ".join(d["extends"])) if d["extends"] else ""
+    return f'{pre}interface {d["name"]}{ext} {{ ' + "; ".join(ts_member(m) for m in d["members"]) + " }"
+
+
+def render_ts(case):
+    kind = case["tscase"]
+    lines = ["import { defineComponent, type SetupContext } from 'vue'"]
+    env, vals, exports = {}, {}, []
+    place = case.get("place", "before")
+    exported = place.startswith("exported")
+    decls = [ts_decl(d, exported) for d in case.get("decls", [])]
+    if kind in ("props", "rtype"):
+        params = f'(props: {ts_type(case["type"])})'
+    elif kind == "emits":
+        params = f'(props: {{ a?: string }}, ctx: SetupContext<{ts_type(case["type"])}>)' if case.get("annotated", True) \
+            else f'(props: {{ a?: string }}, ctx)'
+    else:
+        raise ValueError("ts case " + kind)
+    call = f"defineComponent({params} => () => null)"
+    if place in ("before", "exported_before"):
+        lines += decls + [f"export const C = {call}"]
+        exports.append({"name": "C", "kind": "value"})
+    elif place in ("after", "exported_after"):
+        lines += [f"export const C = {call}"] + decls
+        exports.append({"name": "C", "kind": "value"})
+    elif place in ("scoped", "scoped_shadowing"):
+        if place == "scoped_shadowing":
+            for d in case.get("decls", []):
+                if d["k"] == "alias":
+                    lines.append(f'type {d["name"]} = {{ zz: string }}')
+                else:
+                    lines.append(f'interface {d["name"]} {{ zz: string }}')
+        lines.append("export function mk() {")
+        lines += ["  " + x for x in decls]
+        lines.append(f"  return {call}")
+        lines.append("}")
+        exports.append({"name": "mk", "kind": "thunk"})
+    else:
+        raise ValueError("place " + place)
+    return {"case": case["case"], "src": "\n".join(lines) + "\n", "lang": "tsx",
+            "opts": case.get("optsJson") or opts_json(case["opts"]), "want": [], "env": env, "vals": vals,
+            "exports": exports, "pragmas": [], "other_imports": {}}
+
+
 def opts_json(o):
     d = {
         "transformOn": o["transformOn"], "optimize": o["optimize"], "mergeProps": o["mergeProps"],
@@ -418,6 +526,8 @@ def render_case(case):
         return {"case": case["case"], "src": case["_src"], "lang": case.get("lang", "jsx"),
                 "opts": case.get("optsJson") or opts_json(case["opts"]), "want": [], "env": {}, "vals": {},
                 "exports": [], "pragmas": [], "other_imports": {}}
+    if "tscase" in case:
+        return render_ts(case)
     cx = Ctx()
     body = []
     exports = []
